@@ -127,22 +127,24 @@ Qed.
 Section Proofs.
 Context (c : cfg).
 Notation R := (cR c).
+Notation ES := (cesz c).
 
 (* ---------------------------------------------------------------- hashbrown contract *)
 
 Lemma hb_with_capacity_spec fallible cap (Q : option hb -> st -> Prop) (U : panic -> st -> Prop) s :
-  (forall t s', s_rt s' = s_rt s -> hel t = ∅ -> hn t = 0 -> hb_ok t -> hgl t = bcap (hB t) -> cap <= hgl t ->
-                cap < usize_max -> Q (Some t) s') ->
+  (forall t s', s_rt s' = s_rt s -> hel t = ∅ -> hn t = 0 -> hb_ok ES t -> hgl t = bcap (hB t) -> cap <= hgl t ->
+                cap < usize_max -> (cap = 0 /\ t = hb_new \/ cap_to_buckets cap = Some (hB t)) -> Q (Some t) s') ->
   (fallible = true -> Q None s) ->
   (fallible = false -> U PCapOverflow s) ->
   wp (hb_with_capacity c fallible cap) Q U s.
 Proof.
   intros HS HN HU. unfold hb_with_capacity. destruct (N.eqb_spec cap 0) as [->|Hc].
-  - apply wp_ret. apply HS; [reflexivity|reflexivity|reflexivity|apply hb_ok_new|reflexivity|cbn; lia|reflexivity].
+  - apply wp_ret. apply HS; [reflexivity|reflexivity|reflexivity|apply hb_ok_new|reflexivity|cbn; lia|reflexivity|left; auto].
   - destruct (cap_to_buckets cap) as [B|] eqn:EB.
-    + destruct (layout_ok (cesz c) B).
+    + destruct (layout_ok (cesz c) B) eqn:EL.
       * apply wp_bind. apply frame0_use; [apply frame0_tick|].
-        intros [] s' Hs. apply wp_ret. apply HS; [exact Hs|reflexivity|reflexivity|apply hb_ok_empty|reflexivity| |].
+        intros [] s' Hs. apply wp_ret. apply HS; [exact Hs|reflexivity|reflexivity| |reflexivity| | |right; reflexivity].
+        -- pose proof (cap_to_buckets_ge4 _ _ EB). apply hb_ok_empty; [lia|right; exact EL].
         -- cbn [hb_empty hgl hB]. apply bcap_cap_to_buckets; [lia|exact EB].
         -- unfold cap_to_buckets in EB. destruct (N.ltb_spec cap 4); [unfold usize_max; lia|].
            destruct (N.ltb_spec cap 8); [unfold usize_max; lia|].
@@ -153,20 +155,21 @@ Qed.
 
 
 Lemma hb_ok_insert t e g :
-  hb_ok t -> hel t !! ek e = None -> g + hn t + 1 <= bcap (hB t) ->
-  hb_ok (hb_ins t e g).
+  hb_ok ES t -> hel t !! ek e = None -> g + hn t + 1 <= bcap (hB t) ->
+  hb_ok ES (hb_ins t e g).
 Proof.
-  intros (Hcap & Hn & Hkey) Hnone Hg. split; [|split].
+  intros (Hcap & Hn & Hkey & HB) Hnone Hg. split; [|split; [|split]].
   - hl. lia.
   - hl. rewrite size_insert_None by exact Hnone. lia.
   - intros k e'. hl. destruct (N.eq_dec k (ek e)) as [->|Hne].
     + rewrite lookup_insert. intros [= <-]. reflexivity.
     + rewrite lookup_insert_ne by congruence. apply Hkey.
+  - exact HB.
 Qed.
 
 Lemma hb_put_spec t e reuse (Q : hb -> st -> Prop) (U : panic -> st -> Prop) s :
-  hb_ok t -> hel t !! ek e = None -> (reuse = false -> 0 < hgl t) ->
-  (forall t', hb_ok t' -> hel t' = <[ek e := e]> (hel t) -> hB t' = hB t -> hn t' = hn t + 1 ->
+  hb_ok ES t -> hel t !! ek e = None -> (reuse = false -> 0 < hgl t) ->
+  (forall t', hb_ok ES t' -> hel t' = <[ek e := e]> (hel t) -> hB t' = hB t -> hn t' = hn t + 1 ->
               hgl t' <= hgl t -> hgl t <= hgl t' + 1 -> Q t' s) ->
   wp (hb_put t e reuse) Q U s.
 Proof.
@@ -180,8 +183,8 @@ Proof.
 Qed.
 
 Lemma hb_insert_no_grow_spec t e (Q : hb -> st -> Prop) (U : panic -> st -> Prop) s :
-  hb_ok t -> hel t !! ek e = None -> 0 < hgl t ->
-  (forall t' s', s_rt s' = s_rt s -> hb_ok t' -> hel t' = <[ek e := e]> (hel t) -> hB t' = hB t ->
+  hb_ok ES t -> hel t !! ek e = None -> 0 < hgl t ->
+  (forall t' s', s_rt s' = s_rt s -> hb_ok ES t' -> hel t' = <[ek e := e]> (hel t) -> hB t' = hB t ->
                  hn t' = hn t + 1 -> hgl t' <= hgl t -> hgl t <= hgl t' + 1 -> Q t' s') ->
   wp (hb_insert_no_grow t e) Q U s.
 Proof.
@@ -192,25 +195,25 @@ Proof.
 Qed.
 
 Lemma hb_reserve_rehash1_spec t (Q : hb -> st -> Prop) (U : panic -> st -> Prop) s :
-  hb_ok t ->
-  (forall t' s', s_rt s' = s_rt s -> hb_ok t' -> hel t' = hel t -> hn t' = hn t -> 0 < hgl t' -> Q t' s') ->
+  hb_ok ES t ->
+  (forall t' s', s_rt s' = s_rt s -> hb_ok ES t' -> hel t' = hel t -> hn t' = hn t -> 0 < hgl t' -> Q t' s') ->
   (forall p s', s_rt s' = s_rt s -> p = PUser \/ p = PCapOverflow -> U p s') ->
   wp (hb_reserve_rehash1 c t) Q U s.
 Proof.
-  intros (Hcap & Hn & Hkey) HQ HU. unfold hb_reserve_rehash1.
+  intros (Hcap & Hn & Hkey & HBb) HQ HU. unfold hb_reserve_rehash1.
   destruct (N.leb_spec (hlen t + 1) (bcap (hB t) / 2)) as [Hhalf|Hhalf].
   - apply wp_bind. apply frame_use; [apply frame_rehash_all| |].
     + intros [] s' Hs. apply wp_ret. apply HQ; [exact Hs| |reflexivity|reflexivity|].
-      * split; [hl; lia|split; [exact Hn|exact Hkey]].
+      * split; [hl; lia|split; [exact Hn|split; [exact Hkey|exact HBb]]].
       * assert (bcap (hB t) / 2 <= bcap (hB t)) by (apply N.div_le_upper_bound; lia). hl. lia.
     + intros s' Hs. apply HU; auto.
   - apply wp_bind. apply hb_with_capacity_spec.
-    + intros nt s1 Hs1 Hempty Hn0 Hnt Hntgl Hge _.
+    + intros nt s1 Hs1 Hempty Hn0 Hnt Hntgl Hge _ _.
       apply wp_bind. apply wp_on_unwind.
       eapply frameU_use; [apply frame_rehash_all| |].
       * intros [] s2 Hs2. apply wp_bind. apply frame0_use; [apply frame0_hb_free|].
         intros [] s3 Hs3. apply wp_ret. apply HQ; [congruence| |reflexivity|reflexivity|].
-        -- split; [|split; [exact Hn|exact Hkey]]. hl. lia.
+        -- destruct Hnt as (_ & _ & _ & HBnt). split; [|split; [exact Hn|split; [exact Hkey|exact HBnt]]]. hl. lia.
         -- hl. lia.
       * intros p s2 Hs2 ->. apply frame0_use; [apply frame0_hb_free|].
         intros [] s3 Hs3. apply HU; [congruence|auto].
@@ -219,8 +222,8 @@ Proof.
 Qed.
 
 Lemma hb_insert_spec t e (Q : hb -> st -> Prop) (U : panic -> st -> Prop) s :
-  hb_ok t -> hel t !! ek e = None ->
-  (forall t' s', s_rt s' = s_rt s -> hb_ok t' -> hel t' = <[ek e := e]> (hel t) -> hn t' = hn t + 1 ->
+  hb_ok ES t -> hel t !! ek e = None ->
+  (forall t' s', s_rt s' = s_rt s -> hb_ok ES t' -> hel t' = <[ek e := e]> (hel t) -> hn t' = hn t + 1 ->
                  (0 < hgl t -> hB t' = hB t /\ hgl t' <= hgl t /\ hgl t <= hgl t' + 1) -> Q t' s') ->
   (forall p s', s_rt s' = s_rt s -> p = PUser \/ p = PCapOverflow -> U p s') ->
   wp (hb_insert c t e) Q U s.
@@ -241,16 +244,16 @@ Proof.
 Qed.
 
 Lemma hb_remove_spec t k e (Q : elem * hb -> st -> Prop) (U : panic -> st -> Prop) s :
-  hb_ok t -> hel t !! k = Some e ->
-  (forall t' s', s_rt s' = s_rt s -> hb_ok t' -> hel t' = delete k (hel t) -> hB t' = hB t ->
+  hb_ok ES t -> hel t !! k = Some e ->
+  (forall t' s', s_rt s' = s_rt s -> hb_ok ES t' -> hel t' = delete k (hel t) -> hB t' = hB t ->
                  hn t' + 1 = hn t -> hgl t <= hgl t' -> hgl t' <= hgl t + 1 -> Q (e, t') s') ->
   wp (hb_remove t k) Q U s.
 Proof.
-  intros (Hcap & Hn & Hkey) Hsome HQ. unfold hb_remove. rewrite Hsome.
+  intros (Hcap & Hn & Hkey & HBb) Hsome HQ. unfold hb_remove. rewrite Hsome.
   apply wp_bind. apply take_tomb_rt. intros b s' Hs. apply wp_ret.
   pose proof (size_delete_Some (hel t) k e Hsome) as Hlen.
   apply HQ; [exact Hs| |reflexivity|reflexivity|hl; lia|destruct b; cbn; lia|destruct b; cbn; lia].
-  split; [|split].
+  split; [|split; [|split]]; [| | |exact HBb].
   - hl. destruct b; lia.
   - hl. lia.
   - intros j e'. hl. intros H. apply lookup_delete_Some in H as [_ H]. apply Hkey. exact H.
@@ -310,7 +313,7 @@ Proof.
 Qed.
 
 Definition carry_Q (r : rt) (fuel : N) (r' : rt) : Prop :=
-  Inv R r' /\ rt_abs r' = rt_abs r /\ hB (main r') = hB (main r) /\
+  Inv R ES r' /\ rt_abs r' = rt_abs r /\ hB (main r') = hB (main r) /\
   hgl (main r') <= hgl (main r) /\
   match lo r with
   | Some o =>
@@ -323,11 +326,11 @@ Definition carry_Q (r : rt) (fuel : N) (r' : rt) : Prop :=
   | None => False
   end.
 Definition carry_U (r : rt) (p : panic) (s' : st) : Prop :=
-  Inv R (s_rt s') /\ p = PUser /\ rt_abs (s_rt s') ⊆ rt_abs r.
+  Inv R ES (s_rt s') /\ p = PUser /\ rt_abs (s_rt s') ⊆ rt_abs r.
 
 Lemma carry_loop_spec fuel : forall s o,
   0 < R -> N.of_nat fuel <= R ->
-  lo (s_rt s) = Some o -> hb_ok (main (s_rt s)) -> old_pre (main (s_rt s)) o ->
+  lo (s_rt s) = Some o -> hb_ok ES (main (s_rt s)) -> old_pre (main (s_rt s)) o ->
   budget (N.of_nat fuel) (ocnt o) (hgl (main (s_rt s))) ->
   wp (carry_loop fuel) (fun _ s' => carry_Q (s_rt s) (N.of_nat fuel) (s_rt s')) (carry_U (s_rt s)) s.
 Proof.
@@ -419,7 +422,7 @@ Qed.
 
 
 Lemma rt_carry_spec s o :
-  0 < R -> lo (s_rt s) = Some o -> hb_ok (main (s_rt s)) -> old_pre (main (s_rt s)) o ->
+  0 < R -> lo (s_rt s) = Some o -> hb_ok ES (main (s_rt s)) -> old_pre (main (s_rt s)) o ->
   budget R (ocnt o) (hgl (main (s_rt s))) ->
   wp (rt_carry c) (fun _ s' => carry_Q (s_rt s) R (s_rt s')) (carry_U (s_rt s)) s.
 Proof.
@@ -432,14 +435,14 @@ Qed.
 
 Definition grow_post (r : rt) (extra : N) (r' : rt) : Prop :=
   let n := hn (main r) in
-  Inv R r' /\ rt_abs r' = rt_abs r /\
+  Inv R ES r' /\ rt_abs r' = rt_abs r /\
   hel (main r') = ∅ /\ hn (main r') = 0 /\ hgl (main r') = bcap (hB (main r')) /\
   n + cdiv n R + N.max extra (cdiv n R) <= hgl (main r') /\
   (n = 0 -> lo r' = None) /\
   (0 < n -> exists o', lo r' = Some o' /\ ocnt o' = n /\ oB o' = hB (main r)).
 
 Lemma rt_try_grow_spec fallible extra (Q : bool -> st -> Prop) (U : panic -> st -> Prop) s :
-  Inv R (s_rt s) -> lo (s_rt s) = None ->
+  Inv R ES (s_rt s) -> lo (s_rt s) = None ->
   (forall s', grow_post (s_rt s) extra (s_rt s') -> Q true s') ->
   (forall s', fallible = true -> s_rt s' = s_rt s -> Q false s') ->
   (forall s', fallible = false -> s_rt s' = s_rt s -> U PCapOverflow s') ->
@@ -449,10 +452,10 @@ Proof.
   unfold debug_check. cbn [is_some_b negb]. rewrite Bool.andb_false_r. wp_steps.
   set (t := main (s_rt s)). set (n := hlen t).
   apply hb_with_capacity_spec.
-  - intros nt s1 Hs1 Hempty Hn0 Hnt Hgl Hcap Hlt.
+  - intros nt s1 Hs1 Hempty Hn0 Hnt Hgl Hcap Hlt _.
     assert (Hsum : n + cdiv n R + N.max extra (cdiv n R) <= hgl nt).
     { unfold sat_add in *. lia. }
-    destruct Hok as (Hcap0 & Hn & Hkey).
+    destruct Hok as (Hcap0 & Hn & Hkey & HBb).
     destruct (N.eqb_spec n 0) as [Hz|Hz].
     + wp_steps. apply frame0_use; [apply frame0_hb_free|]. intros [] s2 Hs2. wp_steps.
       apply HT. rewrite Hs2. cbn [set_rt s_rt]. rewrite Hs1, Hlo. unfold grow_post. cbn [main lo].
@@ -482,7 +485,7 @@ Proof.
 Qed.
 
 Lemma rt_grow_spec extra (Q : unit -> st -> Prop) (U : panic -> st -> Prop) s :
-  Inv R (s_rt s) -> lo (s_rt s) = None ->
+  Inv R ES (s_rt s) -> lo (s_rt s) = None ->
   (forall s', grow_post (s_rt s) extra (s_rt s') -> Q tt s') ->
   (forall s', s_rt s' = s_rt s -> U PCapOverflow s') ->
   wp (rt_grow c extra) Q U s.
@@ -503,7 +506,7 @@ Proof. intros H. unfold rt_abs. cbn [main lo]. rewrite H. symmetry. apply insert
 
 (* what an inserting call without growth does: the new element, at most R moves *)
 Definition ins_post (r : rt) (e : elem) (r' : rt) : Prop :=
-  Inv R r' /\ rt_abs r' = <[ek e := e]> (rt_abs r) /\
+  Inv R ES r' /\ rt_abs r' = <[ek e := e]> (rt_abs r) /\
   hB (main r') = hB (main r) /\ rt_capacity r <= rt_capacity r' /\
   match lo r with
   | None => lo r' = None /\ hn (main r') = hn (main r) + 1
@@ -516,14 +519,14 @@ Definition ins_post (r : rt) (e : elem) (r' : rt) : Prop :=
   end.
 
 Definition ins_U (r : rt) (e : elem) (p : panic) (s' : st) : Prop :=
-  Inv R (s_rt s') /\ (p = PUser \/ p = PCapOverflow) /\ rt_abs (s_rt s') ⊆ <[ek e := e]> (rt_abs r).
+  Inv R ES (s_rt s') /\ (p = PUser \/ p = PCapOverflow) /\ rt_abs (s_rt s') ⊆ <[ek e := e]> (rt_abs r).
 
 Lemma rt_insert_no_grow_spec e s :
-  Inv R (s_rt s) -> rt_abs (s_rt s) !! ek e = None -> 0 < hgl (main (s_rt s)) ->
+  Inv R ES (s_rt s) -> rt_abs (s_rt s) !! ek e = None -> 0 < hgl (main (s_rt s)) ->
   wp (rt_insert_no_grow c e) (fun _ s' => ins_post (s_rt s) e (s_rt s')) (ins_U (s_rt s) e) s.
 Proof.
   intros HI Habs Hgl. pose proof HI as (HR & Hok & Ho).
-  rewrite (rt_abs_lookup R) in Habs by exact HI.
+  rewrite (rt_abs_lookup R ES) in Habs by exact HI.
   destruct (s_rt s) as [t lo0] eqn:Ert. cbn [main lo] in *.
   destruct (hel t !! ek e) as [x|] eqn:He; [discriminate|].
   unfold rt_insert_no_grow, main_insert_no_grow. wp_steps. rewrite Ert. cbn [main].
@@ -560,7 +563,7 @@ Qed.
 
 (* an inserting call in general: with growth first when the main table is full *)
 Definition insert_post (r : rt) (e : elem) (r' : rt) : Prop :=
-  Inv R r' /\ rt_abs r' = <[ek e := e]> (rt_abs r) /\
+  Inv R ES r' /\ rt_abs r' = <[ek e := e]> (rt_abs r) /\
   (0 < hgl (main r) -> ins_post r e r') /\
   (hgl (main r) = 0 -> lo r = None /\
      (* the new table holds the new element and up to R moved ones; the rest waits in the old *)
@@ -570,7 +573,7 @@ Definition insert_post (r : rt) (e : elem) (r' : rt) : Prop :=
      end).
 
 Lemma rt_insert_spec e s :
-  Inv R (s_rt s) -> rt_abs (s_rt s) !! ek e = None ->
+  Inv R ES (s_rt s) -> rt_abs (s_rt s) !! ek e = None ->
   wp (rt_insert c e) (fun _ s' => insert_post (s_rt s) e (s_rt s')) (ins_U (s_rt s) e) s.
 Proof.
   intros HI Habs. pose proof HI as (HR & Hok & Ho). unfold rt_insert. wp_steps.
@@ -603,6 +606,312 @@ Proof.
     + intros [] s1 Hp. unfold insert_post. pose proof Hp as (H1 & H2 & H3).
       split; [exact H1|]. split; [exact H2|]. split; [intros _; exact Hp|intros; lia].
     + auto.
+Qed.
+
+
+(* ---------------------------------------------------------------- lookup and removal *)
+
+Lemma rt_find_abs r k :
+  Inv R ES r -> rt_abs r !! k = option_map snd (rt_find_pure r k).
+Proof.
+  intros HI. rewrite (rt_abs_lookup R ES) by exact HI. unfold rt_find_pure.
+  destruct (hel (main r) !! k); [reflexivity|]. destruct (lo r) as [o|]; [|reflexivity].
+  destruct (lookup_list k (orem o)); reflexivity.
+Qed.
+
+Lemma rt_find_main r k e : rt_find_pure r k = Some (true, e) -> hel (main r) !! k = Some e.
+Proof.
+  unfold rt_find_pure. destruct (hel (main r) !! k); [intros [= <-]; reflexivity|].
+  destruct (lo r) as [o|]; [|discriminate]. destruct (lookup_list k (orem o)); discriminate.
+Qed.
+Lemma rt_find_old r k e :
+  rt_find_pure r k = Some (false, e) ->
+  hel (main r) !! k = None /\ exists o, lo r = Some o /\ lookup_list k (orem o) = Some e.
+Proof.
+  unfold rt_find_pure. destruct (hel (main r) !! k); [discriminate|].
+  destruct (lo r) as [o|]; [|discriminate]. destruct (lookup_list k (orem o)) eqn:E; [|discriminate].
+  intros [= <-]. split; [reflexivity|]. exists o. auto.
+Qed.
+
+Lemma abs_delete_main t t' o k :
+  hel t' = delete k (hel t) ->
+  (forall x oo, o = Some oo -> x ∈ orem oo -> ek x <> k) ->
+  rt_abs (RT t' o) = delete k (rt_abs (RT t o)).
+Proof.
+  intros H Hno. unfold rt_abs. cbn [main lo]. rewrite H, delete_union. f_equal.
+  destruct o as [oo|]; [|rewrite delete_empty; reflexivity].
+  symmetry. apply delete_notin. apply list_to_emap_None. intros Hin.
+  apply elem_of_list_fmap in Hin as (x & Hx & Hin). eapply Hno; eauto.
+Qed.
+
+Lemma abs_delete_old t B l i n i' n' k :
+  NoDup (map ek l) -> hel t !! k = None ->
+  rt_abs (RT t (Some (Old B (remove_list k l) i' n'))) = delete k (rt_abs (RT t (Some (Old B l i n)))).
+Proof.
+  intros Hnd Hnone. unfold rt_abs. cbn [main lo orem]. rewrite delete_union, list_to_emap_remove by exact Hnd.
+  rewrite (delete_notin (hel t)) by exact Hnone. reflexivity.
+Qed.
+
+Lemma old_take_spec k e o (Q : elem -> st -> Prop) (U : panic -> st -> Prop) s :
+  lo (s_rt s) = Some o -> oit o = ocnt o -> 0 < ocnt o -> lookup_list k (orem o) = Some e ->
+  (forall s', s_rt s' = with_lo (s_rt s) (Some (Old (oB o) (remove_list k (orem o)) (ocnt o - 1) (ocnt o - 1))) -> Q e s') ->
+  wp (old_take c k) Q U s.
+Proof.
+  intros Hlo Hit Hpos Hl HQ. unfold old_take. wp_steps. rewrite Hlo, Hl.
+  destruct (czst c).
+  - wp_steps. apply HQ. reflexivity.
+  - destruct (N.eqb_spec (oit o) 0) as [Hz|Hz]; [lia|]. wp_steps. apply HQ. rewrite Hit. reflexivity.
+Qed.
+
+(* remove(bucket): the post-state *)
+Definition remove_post (r : rt) (in_main : bool) (k : N) (r' : rt) : Prop :=
+  Inv R ES r' /\ rt_abs r' = delete k (rt_abs r) /\ hB (main r') = hB (main r) /\
+  if in_main then lo r' = lo r /\ hn (main r') + 1 = hn (main r) /\
+                  hgl (main r) <= hgl (main r') /\ hgl (main r') <= hgl (main r) + 1
+  else main r' = main r /\
+       match lo r with
+       | Some o => match lo r' with
+                   | Some o' => ocnt o' + 1 = ocnt o /\ oB o' = oB o /\ oit o' = ocnt o' /\ 1 < ocnt o
+                   | None => ocnt o = 1
+                   end
+       | None => False
+       end.
+
+Lemma old_ok_remove t o k e :
+  old_ok R t o -> lookup_list k (orem o) = Some e -> 0 < R ->
+  old_ok R t (Old (oB o) (remove_list k (orem o)) (ocnt o - 1) (ocnt o - 1)) /\ 0 < ocnt o.
+Proof.
+  intros (Hit & Hc & Hnd & Hdis & Hneed) Hl HR.
+  apply lookup_list_Some in Hl as [Hin Hk].
+  pose proof (remove_list_length k (orem o) e Hnd Hin Hk) as Hlen.
+  split; [|lia]. unfold old_ok, olen in *. cbn [oit ocnt orem].
+  split; [reflexivity|]. split; [lia|]. split; [apply remove_list_nodup; exact Hnd|].
+  split.
+  - intros x Hx. apply remove_list_elem in Hx as [Hx _]. apply Hdis. exact Hx.
+  - pose proof (need_mono (ocnt o - 1) (ocnt o) R HR ltac:(lia)). lia.
+Qed.
+
+Lemma rt_remove_spec in_main k e (Q : elem -> st -> Prop) (U : panic -> st -> Prop) s :
+  Inv R ES (s_rt s) -> rt_find_pure (s_rt s) k = Some (in_main, e) ->
+  (forall s', remove_post (s_rt s) in_main k (s_rt s') -> Q e s') ->
+  wp (rt_remove c in_main k) Q U s.
+Proof.
+  intros HI Hf HQ. pose proof HI as (HR & Hok & Ho). unfold rt_remove. destruct in_main.
+  - apply rt_find_main in Hf. wp_steps. apply hb_remove_spec with (e := e); [exact Hok|exact Hf|].
+    intros t' s1 Hs1 Hok' Hel' HB' Hn' Hge Hle. wp_steps.
+    apply HQ. cbn [fst snd set_rt s_rt]. rewrite Hs1. unfold remove_post. cbn [main lo].
+    destruct (s_rt s) as [t lo0] eqn:Ert. cbn [main lo] in *.
+    assert (Hno : forall x oo, lo0 = Some oo -> x ∈ orem oo -> ek x <> k).
+    { intros x oo -> Hx Hk. destruct Ho as (_ & _ & _ & Hdis & _). specialize (Hdis x Hx). congruence. }
+    split.
+    { split; [exact HR|]. split; [exact Hok'|]. cbn [lo main]. destruct lo0 as [o|]; [|exact I].
+      destruct Ho as (Hit & Hc & Hnd & Hdis & Hneed).
+      split; [exact Hit|]. split; [exact Hc|]. split; [exact Hnd|]. split; [|lia].
+      intros x Hx. rewrite Hel'. rewrite lookup_delete_ne by (apply not_eq_sym; eapply Hno; eauto). apply Hdis. exact Hx. }
+    split; [apply abs_delete_main; assumption|]. repeat split; assumption.
+  - apply rt_find_old in Hf as (Hnone & o & Hlo & Hl). wp_steps. rewrite Hlo.
+    rewrite Hlo in Ho. destruct (old_ok_remove _ _ _ _ Ho Hl HR) as [Ho' Hpos].
+    pose proof Ho as (Hit & Hc & Hnd & Hdis & Hneed).
+    apply wp_bind. apply old_take_spec with (e := e) (o := o); [exact Hlo|exact Hit|exact Hpos|exact Hl|].
+    intros s1 Hs1. wp_steps. rewrite Hs1. cbn [lo olen ocnt].
+    destruct (s_rt s) as [t lo0] eqn:Ert. cbn [main lo] in *. subst lo0.
+    destruct (N.eqb_spec (ocnt o - 1) 0) as [Hz|Hz]; cbn [when].
+    + apply wp_bind. apply free_old_spec. intros s2 Hs2. apply wp_ret. apply HQ.
+      rewrite Hs2, Hs1. cbn [main lo]. unfold remove_post. cbn [main lo].
+      split; [split; [exact HR|split; [exact Hok|exact I]]|].
+      assert (Hnil : remove_list k (orem o) = []).
+      { destruct Ho' as (_ & Hc' & _). cbn [ocnt orem] in Hc'. destruct (remove_list k (orem o)); [reflexivity|cbn [length] in Hc'; lia]. }
+      split.
+      { destruct o as [B l i n]. cbn [oB orem oit ocnt] in *.
+        rewrite <- (abs_delete_old t B l i n 0 0 k Hnd Hnone). rewrite Hnil. reflexivity. }
+      repeat split; lia.
+    + wp_steps. apply HQ. rewrite Hs1. unfold remove_post. cbn [main lo ocnt oB oit].
+      split; [split; [exact HR|split; [exact Hok|exact Ho']]|].
+      split; [destruct o as [B l i n]; apply abs_delete_old; assumption|]. repeat split; lia.
+Qed.
+
+
+(* erase(bucket): like remove, but the element is dropped and an emptied old table stays *)
+Definition erase_post (r : rt) (in_main : bool) (k : N) (r' : rt) : Prop :=
+  Inv R ES r' /\ rt_abs r' = delete k (rt_abs r) /\ hB (main r') = hB (main r) /\
+  if in_main then lo r' = lo r /\ hn (main r') + 1 = hn (main r) /\
+                  hgl (main r) <= hgl (main r') /\ hgl (main r') <= hgl (main r) + 1
+  else main r' = main r /\
+       match lo r, lo r' with
+       | Some o, Some o' => ocnt o' + 1 = ocnt o /\ oB o' = oB o /\ orem o' = remove_list k (orem o)
+       | _, _ => False
+       end.
+
+Lemma rt_erase_spec in_main k e (Q : unit -> st -> Prop) (U : panic -> st -> Prop) s :
+  Inv R ES (s_rt s) -> rt_find_pure (s_rt s) k = Some (in_main, e) ->
+  (forall s', erase_post (s_rt s) in_main k (s_rt s') -> Q tt s') ->
+  wp (rt_erase c in_main k) Q U s.
+Proof.
+  intros HI Hf HQ. pose proof HI as (HR & Hok & Ho). unfold rt_erase. destruct in_main.
+  - apply rt_find_main in Hf. wp_steps. apply hb_remove_spec with (e := e); [exact Hok|exact Hf|].
+    intros t' s1 Hs1 Hok' Hel' HB' Hn' Hge Hle. wp_steps.
+    apply frame0_use; [apply frame0_drop_elem|]. intros [] s2 Hs2.
+    apply HQ. rewrite Hs2. cbn [fst snd set_rt s_rt]. rewrite Hs1. unfold erase_post. cbn [main lo].
+    destruct (s_rt s) as [t lo0] eqn:Ert. cbn [main lo] in *.
+    assert (Hno : forall x oo, lo0 = Some oo -> x ∈ orem oo -> ek x <> k).
+    { intros x oo -> Hx Hk. destruct Ho as (_ & _ & _ & Hdis & _). specialize (Hdis x Hx). congruence. }
+    split.
+    { split; [exact HR|]. split; [exact Hok'|]. cbn [lo main]. destruct lo0 as [o|]; [|exact I].
+      destruct Ho as (Hit & Hc & Hnd & Hdis & Hneed).
+      split; [exact Hit|]. split; [exact Hc|]. split; [exact Hnd|]. split; [|lia].
+      intros x Hx. rewrite Hel'. rewrite lookup_delete_ne by (apply not_eq_sym; eapply Hno; eauto). apply Hdis. exact Hx. }
+    split; [apply abs_delete_main; assumption|]. repeat split; assumption.
+  - apply rt_find_old in Hf as (Hnone & o & Hlo & Hl). wp_steps. rewrite Hlo.
+    rewrite Hlo in Ho. destruct (old_ok_remove _ _ _ _ Ho Hl HR) as [Ho' Hpos].
+    pose proof Ho as (Hit & Hc & Hnd & Hdis & Hneed).
+    apply wp_bind. apply old_take_spec with (e := e) (o := o); [exact Hlo|exact Hit|exact Hpos|exact Hl|].
+    intros s1 Hs1. apply frame0_use; [apply frame0_drop_elem|]. intros [] s2 Hs2.
+    apply HQ. rewrite Hs2, Hs1. unfold erase_post. rewrite Hlo. cbn [main lo ocnt oB orem].
+    destruct (s_rt s) as [t lo0] eqn:Ert. cbn [main lo] in *. subst lo0.
+    split; [split; [exact HR|split; [exact Hok|exact Ho']]|].
+    split; [destruct o as [B l i n]; apply abs_delete_old; assumption|].
+    split; [reflexivity|]. split; [reflexivity|]. split; [lia|]. split; reflexivity.
+Qed.
+
+(* clear() *)
+Lemma hb_clear_spec t (Q : hb -> st -> Prop) (U : panic -> st -> Prop) s :
+  hb_ok ES t ->
+  (forall t' s', s_rt s' = s_rt s -> hb_ok ES t' -> hel t' = ∅ -> hn t' = 0 -> hB t' = hB t -> hgl t <= hgl t' -> Q t' s') ->
+  wp (hb_clear t) Q U s.
+Proof.
+  intros Hok HQ. pose proof Hok as (Hcap & Hn & Hkey & HBb). unfold hb_clear, hlen.
+  destruct (N.eqb_spec (hn t) 0) as [Hz|Hz].
+  - apply wp_ret. apply HQ; [reflexivity|exact Hok| |exact Hz|reflexivity|lia].
+    apply map_size_empty_inv. lia.
+  - apply wp_bind. apply frame0_use; [apply frame0_drop_elems|]. intros [] s1 Hs1. apply wp_ret.
+    apply HQ; [exact Hs1|apply hb_ok_empty; tauto|reflexivity|reflexivity|reflexivity|]. cbn [hb_empty hgl]. lia.
+Qed.
+
+Lemma rt_clear_spec (Q : unit -> st -> Prop) (U : panic -> st -> Prop) s :
+  Inv R ES (s_rt s) ->
+  (forall s', Inv R ES (s_rt s') -> rt_abs (s_rt s') = ∅ -> lo (s_rt s') = None ->
+              hB (main (s_rt s')) = hB (main (s_rt s)) -> Q tt s') ->
+  wp rt_clear Q U s.
+Proof.
+  intros (HR & Hok & _) HQ. unfold rt_clear. apply wp_bind. apply free_old_spec. intros s1 Hs1.
+  wp_steps. rewrite Hs1. cbn [main].
+  apply hb_clear_spec; [exact Hok|]. intros t' s2 Hs2 Hok' Hel' Hn' HB' Hgl'. wp_steps.
+  apply HQ; cbn [set_rt s_rt]; rewrite Hs2, Hs1; cbn [main lo].
+  - split; [exact HR|split; [exact Hok'|exact I]].
+  - unfold rt_abs. cbn [main lo]. rewrite Hel'. apply (left_id_L ∅ (∪)).
+  - reflexivity.
+  - exact HB'.
+Qed.
+
+
+
+(* ---------------------------------------------------------------- shrink_to *)
+
+(* with_capacity for a size whose bucket count is known to fit *)
+Lemma hb_with_capacity_fits cap B (Q : option hb -> st -> Prop) (U : panic -> st -> Prop) s :
+  0 < cap -> cap_to_buckets cap = Some B -> layout_ok ES B = true ->
+  (forall t s', s_rt s' = s_rt s -> hel t = ∅ -> hn t = 0 -> hb_ok ES t -> hgl t = bcap B -> hB t = B -> Q (Some t) s') ->
+  wp (hb_with_capacity c false cap) Q U s.
+Proof.
+  intros Hc EB EL HQ. unfold hb_with_capacity. destruct (N.eqb_spec cap 0); [lia|]. rewrite EB, EL.
+  apply wp_bind. apply frame0_use; [apply frame0_tick|]. intros [] s' Hs. apply wp_ret.
+  pose proof (cap_to_buckets_ge4 _ _ EB).
+  apply HQ; [exact Hs|reflexivity|reflexivity|apply hb_ok_empty; [lia|right; exact EL]|reflexivity|reflexivity].
+Qed.
+
+Lemma hb_shrink_to_spec t m (Q : hb -> st -> Prop) (U : panic -> st -> Prop) s :
+  hb_ok ES t ->
+  (forall t' s', s_rt s' = s_rt s -> hb_ok ES t' -> hel t' = hel t -> hn t' = hn t -> hB t' <= hB t ->
+                 (t' = t \/ N.max (hn t) m <= hgl t' + hn t) -> Q t' s') ->
+  (forall s', s_rt s' = s_rt s -> U PUser s') ->
+  wp (hb_shrink_to c t m) Q U s.
+Proof.
+  intros Hok HQ HU. pose proof Hok as (Hcap & Hn & Hkey & HB0 & HB1). unfold hb_shrink_to, hlen.
+  destruct (N.eqb_spec (N.max (hn t) m) 0) as [Hz|Hz].
+  - apply wp_bind. apply frame0_use; [apply frame0_hb_free|]. intros [] s1 Hs1. apply wp_ret.
+    assert (Hem : hel t = ∅) by (apply map_size_empty_inv; lia).
+    apply HQ; [exact Hs1|apply hb_ok_new|cbn; congruence|cbn; lia|cbn; lia|right; cbn; lia].
+  - destruct (cap_to_buckets (N.max (hn t) m)) as [mb|] eqn:Emb.
+    2:{ apply wp_ret. apply HQ; [reflexivity|exact Hok|reflexivity|reflexivity|lia|left; reflexivity]. }
+    destruct (N.ltb_spec mb (hB t)) as [Hlt|Hge].
+    2:{ apply wp_ret. apply HQ; [reflexivity|exact Hok|reflexivity|reflexivity|lia|left; reflexivity]. }
+    assert (EL : layout_ok ES mb = true).
+    { destruct HB1 as [H1|H1]; [pose proof (cap_to_buckets_ge4 _ _ Emb); lia|].
+      apply (layout_ok_mono ES (hB t)); [lia|exact H1]. }
+    apply wp_bind. apply (hb_with_capacity_fits _ mb); [lia|exact Emb|exact EL|].
+    intros nt s1 Hs1 Hempty Hn0 Hnt Hgl HBnt.
+    assert (Hbc : N.max (hn t) m <= bcap mb) by (apply bcap_cap_to_buckets; [lia|exact Emb]).
+    apply wp_bind. apply wp_on_unwind. eapply frameU_use; [apply frame_rehash_all| |].
+    + intros [] s2 Hs2. apply wp_bind. apply frame0_use; [apply frame0_hb_free|]. intros [] s3 Hs3.
+      apply wp_ret. destruct Hnt as (_ & _ & _ & HBn0 & HBn1).
+      apply HQ; [congruence| |reflexivity|reflexivity|cbn [hb_rebuilt hB]; lia|right; cbn [hb_rebuilt hgl]; rewrite HBnt; lia].
+      split; [hl; rewrite HBnt; lia|]. split; [exact Hn|]. split; [exact Hkey|split; [exact HBn0|exact HBn1]].
+    + intros p s2 Hs2 ->. apply frame0_use; [apply frame0_hb_free|]. intros [] s3 Hs3. apply HU. congruence.
+Qed.
+
+Definition shrink_post (r : rt) (m : N) (r' : rt) : Prop :=
+  Inv R ES r' /\ rt_abs r' = rt_abs r /\ hB (main r') <= hB (main r) /\ hn (main r') = hn (main r) /\
+  (* capacity() >= max(len(), min(m, previous capacity)) *)
+  rt_len r' = rt_len r /\ rt_len r' <= rt_capacity r' /\ N.min m (rt_capacity r) <= rt_capacity r' /\
+  (* an old table is kept unless it was already empty *)
+  match lo r with
+  | Some o => if ocnt o =? 0 then lo r' = None else lo r' = Some o
+  | None => lo r' = None
+  end.
+
+Lemma Inv_cap_ge_len r : Inv R ES r -> rt_len r <= rt_capacity r.
+Proof.
+  intros (HR & _ & Ho). unfold rt_len, rt_capacity. destruct (lo r) as [o|]; [|lia].
+  destruct Ho as (_ & _ & _ & _ & Hneed). pose proof (need_ge (olen o) R HR). lia.
+Qed.
+
+Lemma rt_shrink_to_spec m (Q : unit -> st -> Prop) (U : panic -> st -> Prop) s :
+  Inv R ES (s_rt s) ->
+  (forall s', shrink_post (s_rt s) m (s_rt s') -> Q tt s') ->
+  (forall s', Inv R ES (s_rt s') -> rt_abs (s_rt s') = rt_abs (s_rt s) -> U PUser s') ->
+  wp (rt_shrink_to c m) Q U s.
+Proof.
+  intros HI HQ HU. pose proof HI as (HR & Hok & Ho). unfold rt_shrink_to. wp_steps.
+  destruct (s_rt s) as [t lo0] eqn:Ert. cbn [main lo] in *.
+  (* an emptied old table is released first *)
+  assert (Hpre : forall (Q' : unit -> st -> Prop), 
+     (forall s1, (s_rt s1 = RT t (match lo0 with Some o => if ocnt o =? 0 then None else Some o | None => None end)) -> Q' tt s1) ->
+     wp (when (match lo0 with Some o => olen o =? 0 | None => false end) free_old) Q' U s).
+  { intros Q' HQ'. destruct lo0 as [o|]; cbn [when].
+    - unfold olen. destruct (N.eqb_spec (ocnt o) 0); cbn [when].
+      + apply free_old_spec. intros s1 Hs1. apply HQ'. rewrite Hs1, Ert. reflexivity.
+      + apply wp_ret. apply HQ'. exact Ert.
+    - apply wp_ret. apply HQ'. exact Ert. }
+  apply Hpre. clear Hpre. intros s1 Hs1. wp_steps. rewrite Hs1. cbn [main lo].
+  set (lo1 := match lo0 with Some o => if ocnt o =? 0 then None else Some o | None => None end) in *.
+  assert (Ho1 : match lo1 with Some o => old_ok R t o /\ 0 < ocnt o /\ lo0 = Some o | None => True end).
+  { unfold lo1. destruct lo0 as [o|]; [|exact I]. destruct (N.eqb_spec (ocnt o) 0); [exact I|]. repeat split; try apply Ho; lia. }
+  assert (Habs1 : rt_abs (RT t lo1) = rt_abs (RT t lo0)).
+  { unfold lo1. destruct lo0 as [o|]; [|reflexivity]. destruct (N.eqb_spec (ocnt o) 0) as [Hz|Hz]; [|reflexivity].
+    destruct Ho as (_ & Hc & _). assert (orem o = []) by (apply ocnt_0; [exact Hc|exact Hz]).
+    unfold rt_abs. cbn [main lo]. rewrite H. reflexivity. }
+  assert (Hlen1 : rt_len (RT t lo1) = rt_len (RT t lo0)).
+  { unfold lo1, rt_len. cbn [main lo]. destruct lo0 as [o|]; [|reflexivity]. unfold olen. destruct (N.eqb_spec (ocnt o) 0); lia. }
+  apply hb_shrink_to_spec; [exact Hok| |].
+  - intros t' s2 Hs2 Hok' Hel' Hn' HB' Hcase. wp_steps. apply HQ. cbn [set_rt s_rt]. rewrite Hs2, Hs1. cbn [lo].
+    assert (HI' : Inv R ES (RT t' lo1)).
+    { split; [exact HR|]. split; [exact Hok'|]. cbn [main lo]. destruct lo1 as [o|]; [|exact I].
+      destruct Ho1 as ((Hit & Hc & Hnd & Hdis & Hneed) & Hpos & _).
+      split; [exact Hit|]. split; [exact Hc|]. split; [exact Hnd|]. split; [intros x Hx; rewrite Hel'; apply Hdis; exact Hx|].
+      destruct Hcase as [->|Hcase]; [exact Hneed|]. unfold olen in *. rewrite need_pos by lia. unfold hlen in Hcase. lia. }
+    unfold shrink_post. cbn [main lo]. split; [exact HI'|].
+    split. { rewrite <- Habs1. unfold rt_abs. cbn [main lo]. rewrite Hel'. reflexivity. }
+    split; [exact HB'|]. split; [exact Hn'|].
+    assert (Hlen' : rt_len (RT t' lo1) = rt_len (RT t lo0)).
+    { rewrite <- Hlen1. unfold rt_len, hlen. cbn [main lo]. rewrite Hn'. reflexivity. }
+    split; [exact Hlen'|]. split; [apply Inv_cap_ge_len; exact HI'|].
+    split.
+    { unfold rt_capacity, hlen. cbn [main]. destruct Hcase as [->|Hcase]; [lia|]. 
+      unfold hlen in Hcase. lia. }
+    unfold lo1. destruct lo0 as [o|]; [|reflexivity]. destruct (ocnt o =? 0); reflexivity.
+  - intros s2 Hs2. apply HU; rewrite Hs2, Hs1.
+    + split; [exact HR|]. split; [exact Hok|]. cbn [main lo]. destruct lo1 as [o|]; [|exact I]. apply Ho1.
+    + exact Habs1.
 Qed.
 
 End Proofs.
